@@ -83,6 +83,9 @@ HAND = [
                         r(L("q/"), W("x"), L("/z"), m="PUT")), True),
     ("re-context", RS(r(L("i/"), W("c", "re", "^[ab]+")), r(L("n"), W("k", "re", r"\B[0-9]")), r(L("t-"), W("t", "re", "(?<!-)[ab]"), L("/x")),
                       r(L("w"), W("b", "re", r"\b[0-9]"), L("z"))), True),
+    # a literal sibling next to a plain wildcard next to an int-filtered rule: the lookup of "f/r<digits>" descends into the
+    # literal branch with a backtracking point pending when the conversion runs (after-fault/ family, since seed C01-k)
+    ("fault-int", RS(r(L("f/re")), r(L("f/"), W("name")), r(L("f/r"), W("rev", "int")), r(L("g"))), True),
     ("float", RS(r(L("v/"), W("f", "float")), r(L("v/"), W("f", "float"), L("/x")), r(L("v/1")), r(L("v/1.")),), True),
 ]
 
@@ -294,6 +297,49 @@ def make_removed(rules, flavour, N, how, arg):
     return q, sorted(gone)
 
 
+def fault_path(spec):
+    """a concrete path on which the rule's int conversion raises (more digits than int() accepts: ValueError)"""
+    return "/" + "".join(s.text if isinstance(s, L) else ("9" * 4301 if s.filter == "int" else "x") for s in spec)
+
+
+def make_after_fault(rules, flavour, N):
+    """a lookup that dies from an exception (the conversion of an int wildcard refuses a numeral of 4301 digits: ValueError,
+    answered 500 by the application), THEN the judged lookup on the same router: whatever the aborted lookup left behind
+    must not reach the next one (every path a process of its own: the router is rebuilt)"""
+    built0 = Built(rules, flavour)
+    faults = [fault_path(spec) for spec, _, _ in built0.accepted if any(isinstance(s, W) and s.filter == "int" for s in spec)]
+    assert faults
+    from harness.c11_router_histories import untraced
+
+    def q(path: str, which: int):
+        assume(len(path) <= N)
+        assume(0 <= which < len(faults))
+        for ch in path:
+            assume(ord(ch) < 128)
+        built = untraced(lambda: Built(rules, flavour))
+        fp = faults[which]
+
+        def fault():
+            try:
+                built.router.resolve(fp, [GET])
+            except ValueError:
+                return True
+            return False
+        if untraced(fault):
+            cover("fault")
+        got = observe(built, path, GET)
+        a = oracle(built, path, GET, True)
+        if a[0] == "undetermined" or same(got, a):
+            cover(got[0])
+            return None
+        b = oracle(built, path, GET, False)
+        if b[0] == "undetermined" or same(got, b):
+            return None
+        return "after a lookup of %s...(%d characters) that raised: path %r -> router %r, rule-by-rule semantics %r (rules %r)" % (
+            fp[:12], len(fp), path, got, a, built.rendered)
+    return q, built0, faults
+
+
 def make_wsgi(rules, flavour, N):
     """kwargs as received by the handler through Ombott.__call__"""
     built0 = Built(rules, flavour)
@@ -435,6 +481,14 @@ def queries(tier):
         out.append(Q("wsgi/%s" % tag, make_wsgi(rules, 1, 4 if not T else 5),
                      "Ombott.__call__ GET, kwargs recorded by the handlers; PATH_INFO '/'+p, |p| <= %d, code points < 128" % (4 if not T else 5),
                      timeout=200 if not T else 600, family="wsgi"))
+    for tag in (["fault-int", "int"] if not T else ["fault-int", "int", "adjacent", "filter-clash"]):
+        rules = next(rs for t, rs, _ in HAND if t == tag)
+        n = 4 if not T else 5
+        fn, built, faults = make_after_fault(rules, 0, n)
+        out.append(Q("after-fault/%s" % tag, fn,
+                     "rules %r; first a lookup whose int conversion raises (one of %d concrete paths with a numeral of 4301 digits, "
+                     "solver index), then every path with <= %d code points < 128 on the same router" % (built.rendered, len(faults), n),
+                     timeout=200 if not T else 600, expect_cover=["fault"], family="after-fault", config={"rules": built.rendered}))
     for tag, late in ((("backtrack", 1), ("root-wild", 1)) if not T else (("backtrack", 1), ("backtrack", 3), ("root-wild", 1), ("path", 2))):
         rules = next(rs for t, rs, _ in HAND if t == tag)
         out.append(Q("wsgi-late/%s/r%d" % (tag, late), make_wsgi_late(rules, late, 1, 4 if not T else 5),
